@@ -46,6 +46,7 @@ PROC = {
 # connection-accept timeout, and a stock Device answers neither request by itself)
 PROC_DIRECTED = {
     0x2064: ('cis_established', 'cis'),
+    0x2066: ('cis_established', 'cis1'),  # LE Accept CIS Request (the peripheral's half of the CIS set-up)
     0x043D: ('sync_conn_complete', 'acl-addr'),
 }
 
@@ -201,6 +202,10 @@ class Monitor:
             for i in range(n):
                 self.sim.probe('procedure_pending')
                 self.expect.append([op, kind, int.from_bytes(params[1 + 4 * i:3 + 4 * i], 'little') & 0x0FFF, 'cis'])  # (CIS handle, ACL handle) per entry
+            return
+        if keykind == 'cis1':
+            self.sim.probe('procedure_pending')
+            self.expect.append([op, kind, int.from_bytes(params[0:2], 'little') & 0x0FFF, 'cis'])
             return
         if keykind == 'acl-addr':
             conn = ctrl.find_connection_by_handle(int.from_bytes(params[0:2], 'little') & 0x0FFF)
@@ -451,7 +456,7 @@ def run_random(case):
 
 # --------------------------------------------------------------------------------------
 PROCS = ['le_create', 'le_create_ext', 'disconnect', 'le_read_remote_features', 'le_enable_encryption',
-         'classic_create', 'remote_name', 'classic_remote_features', 'classic_remote_ext_features', 'le_create_cis', 'sco_setup']
+         'classic_create', 'remote_name', 'classic_remote_features', 'classic_remote_ext_features', 'le_create_cis', 'sco_setup', 'le_accept_cis']
 
 
 def gen_procedures(rng, tier, seed):
@@ -474,6 +479,11 @@ def gen_procedures(rng, tier, seed):
             case['situation'] = 'two_peers'
             case['n'] = 3
             case['stall_first'] = rng.choice([0, 0.02, 0.2])
+    elif proc == 'le_accept_cis':
+        # the commanding host is the peripheral: the peer (central) asks for a CIS, this host accepts it, and the ACL connection may
+        # go away (the peer's host disconnects it, or the peer drops off the link) while the acceptance is on its way
+        case['situation'] = rng.choice(['accept', 'accept+cut_by_peer', 'accept+cut_by_peer', 'accept+peer_drops_off'])
+        case['when'] = rng.choice([0.0, 0.0, 0.0002, 0.001, 0.01])
     elif proc in ('le_create_cis', 'sco_setup'):
         # the peer's host accepts; the ACL connection may be disconnected (by either host) while the link is being set up
         case['situation'] = rng.choice(['accept', 'accept+acl_disconnect', 'accept+acl_disconnect_by_peer', 'unknown_handle'])
@@ -490,6 +500,13 @@ def gen_procedures(rng, tier, seed):
         # for either role: the procedure that follows on the live handle must still be concluded for that handle
         case['stray_accept'] = rng.choice([None, None, 0, 1]) if proc.startswith('classic_remote') else None
     return case
+
+
+async def _quiet(coro):
+    try:
+        return await coro
+    except Exception:
+        return None
 
 
 def run_procedures(case):
@@ -520,6 +537,10 @@ def run_procedures(case):
                 cc, cp = world.connect_le(0, 1)
                 handle = cc.handle
                 peer_conn = cp
+            if proc == 'le_accept_cis':
+                cc, cp = world.connect_le(1, 0)
+                handle = cp.handle
+                peer_conn = cc
             if proc in ('disconnect', 'le_read_remote_features', 'le_enable_encryption') and situation != 'unknown_handle':
                 if case.get('peer_feature_mask') is not None:
                     n1.controller.le_features = hci.LeFeatureMask(int(n1.controller.le_features) & case['peer_feature_mask'])
@@ -535,7 +556,7 @@ def run_procedures(case):
             sim.must(n1.host.send_command(hci.HCI_LE_Set_Random_Address_Command(random_address=hci.Address('D1:00:00:00:77:01', hci.Address.RANDOM_DEVICE_ADDRESS))), 'readdr')
             sim.probe('peer_changed_its_random_address_after_connecting')
         mon = Monitor(sim, world)
-        if proc in ('le_create_cis', 'sco_setup'):
+        if proc in ('le_create_cis', 'sco_setup', 'le_accept_cis'):
             mon.proc.update(PROC_DIRECTED)
 
         def vanish():
@@ -610,6 +631,25 @@ def run_procedures(case):
             cis_handles = sim.must(n0.device.setup_cig(CigParameters(cig_id=1, cis_parameters=[CigParameters.CisParameters(cis_id=2 + i) for i in range(nc)],
                                                                     sdu_interval_c_to_p=0, sdu_interval_p_to_c=0)), 'cig')
             cmds.append(hci.HCI_LE_Create_CIS_Command(cis_connection_handle=list(cis_handles), acl_connection_handle=[handle] * nc))
+        elif proc == 'le_accept_cis':
+            import warnings
+            from bumble.device import CigParameters
+            warnings.simplefilter('ignore', FutureWarning)
+            accept_seen = []
+
+            def on_cis_request_here(acl_handle, cis_handle, cig_id, cis_id):
+                # this host accepts with the raw command (the monitored boundary) ...
+                accept_seen.append(cis_handle)
+                tasks.append(sim.loop.create_task(_quiet(host.send_command(hci.HCI_LE_Accept_CIS_Request_Command(connection_handle=cis_handle)))))
+                # ... while the ACL connection is taken away from under it
+                if 'cut_by_peer' in situation:
+                    sim.loop.sim_after(case['when'], lambda: sim.loop.create_task(_quiet(n1.host.send_command(hci.HCI_Disconnect_Command(connection_handle=peer_conn.handle, reason=0x13)))))
+                elif 'drops_off' in situation:
+                    sim.loop.sim_after(case['when'], vanish)
+            host.on('cis_request', on_cis_request_here)
+            cis_handles = sim.must(n1.device.setup_cig(CigParameters(cig_id=1, cis_parameters=[CigParameters.CisParameters(cis_id=2)], sdu_interval_c_to_p=0, sdu_interval_p_to_c=0)), 'cig')
+            sim.loop.create_task(_quiet(n1.host.send_command(hci.HCI_LE_Create_CIS_Command(cis_connection_handle=list(cis_handles), acl_connection_handle=[peer_conn.handle]))))
+            sim.probe('commanding_host_accepts_a_cis_as_peripheral')
         elif proc == 'sco_setup':
             from bumble import hfp
             params = hfp.ESCO_PARAMETERS[hfp.DefaultCodecParameters.ESCO_CVSD_S1].asdict()
@@ -657,7 +697,9 @@ def run_procedures(case):
         tasks = [sim.loop.create_task(main())] + [sim.loop.create_task(noise(k)) for k in range(case['extra_callers'])]
         for d, fn in later:
             sim.loop.sim_after(d, fn)
-        status = sim.loop.drive(lambda: all(t.done() for t in tasks) and sim.loop.time() > case['when'] + 0.02, vt_budget=60.0, step_budget=400_000)
+        t_start = sim.loop.time()
+        status = sim.loop.drive(lambda: all(t.done() for t in tasks) and sim.loop.time() > case['when'] + 0.02
+                                and (proc != 'le_accept_cis' or bool(accept_seen) or sim.loop.time() > t_start + 5.0), vt_budget=60.0, step_budget=400_000)
         if status != 'done' and not all(t.done() for t in tasks):
             cur = mon.cur
             if cur is not None and cur[1] == 0:
